@@ -152,6 +152,16 @@ func exec(w []string) string {
 
 // ---- generation + oracle ---------------------------------------------------------------------------
 
+// jsonSafe: the string can stand between double quotes as a JSON string literal denoting itself
+func jsonSafe(s string) bool {
+	for i := 0; i < len(s); i++ {
+		if c := s[i]; c < 0x20 || c == '"' || c == '\\' || c >= 0x7f {
+			return false
+		}
+	}
+	return true
+}
+
 type gen struct {
 	r  *hk.Run
 	ex func([]string) string
@@ -175,6 +185,20 @@ func (g *gen) checkString(s string) {
 		return
 	}
 	ref, ok := blob.Parse(s)
+	// O0: every parser of the text form decides alike and hands out the same ref: Parse, ParseBytes and
+	// (for strings a JSON string literal can carry unchanged) UnmarshalJSON
+	if rb, okb := blob.ParseBytes([]byte(s)); okb != ok || (ok && rb != ref) {
+		r.Fail("parsers-disagree:parsebytes", fmt.Sprintf("Parse(%q) ok=%v, ParseBytes ok=%v (%s)", s, ok, okb, rb.String()),
+			fmt.Sprintf("ok=%v", ok), fmt.Sprintf("ok=%v %s", okb, rb.String()), []string{"parse " + hs, "parsebytes " + hs})
+	}
+	if jsonSafe(s) {
+		var rj blob.Ref
+		errj := rj.UnmarshalJSON([]byte("\"" + s + "\""))
+		if (errj == nil) != ok || (ok && rj != ref) {
+			r.Fail("parsers-disagree:json", fmt.Sprintf("Parse(%q) ok=%v, UnmarshalJSON err=%v (%s)", s, ok, errj, rj.String()),
+				fmt.Sprintf("ok=%v", ok), fmt.Sprintf("ok=%v %s", errj == nil, rj.String()), []string{"parse " + hs, "unjson " + hk.Hex([]byte("\""+s+"\""))})
+		}
+	}
 	if !ok {
 		r.Hit("parse:reject")
 		// ParseKnown must not accept what Parse rejects
